@@ -158,12 +158,36 @@ def diff_snapshot(a, b):
     return out
 
 
+class LazyEvaluators:
+    """evaluator number e is constructed when it is first used (so some are created before, some after
+    evaluations took place) unless `eager`"""
+
+    def __init__(self, model, k, eager):
+        from xlcalculator import Evaluator
+        self.model, self.mk = model, Evaluator
+        self.evs = {e: Evaluator(model) for e in range(k)} if eager else {}
+
+    def __getitem__(self, e):
+        if e not in self.evs:
+            self.evs[e] = self.mk(self.model)
+        return self.evs[e]
+
+    def __iter__(self):
+        return iter(self.evs.values())
+
+
+def eager_of(k, sched):
+    """deterministic choice (so that a replay repeats it): evaluators are created up front for about
+    half of the schedules, on first use for the others"""
+    return (k + len(sched)) % 2 == 0
+
+
 def run_schedule(wb, oracle, k, sched):
     """sched: list of ('e', evaluator, handle) | ('s', evaluator, handle, value).  Returns (obs, violations)"""
     from xlcalculator import Evaluator
     model = evalwire.build_real(wb)
     c04.install_names(model, wb)
-    evs = [Evaluator(model) for _ in range(k)]
+    evs = LazyEvaluators(model, k, eager_of(k, sched))
     names = wb.get('names', {})
     inputs = {a: c for a, c in wb['cells'].items() if not (isinstance(c, tuple) and c and c[0] == 'f')}
     obs, viol = [], []
@@ -185,7 +209,7 @@ def run_schedule(wb, oracle, k, sched):
             continue
         r = evalwire.canon_result(evs[op[1]].evaluate, handle)
         want = oracle.value(inputs, addr)
-        if not (r == want or common.same_value(r, want)):
+        if r != want:          # exact wire text: the Excel type (B:/I:/F:/T:) counts, not only the value
             bad('the value depends on what was evaluated before / on the evaluator used (differs from a freshly '
                 'compiled model)', i, want, r)
             break
@@ -200,6 +224,16 @@ def run_schedule(wb, oracle, k, sched):
         if getattr(e, '_evaluating', []):
             bad('an evaluator keeps cells on its in-progress stack after evaluate returned', len(sched) - 1, [],
                 list(e._evaluating))
+    if not viol and (len(sched) % 4 == 0 or wb.get('twins')):
+        # which Evaluator instance is used must not matter: one created now, over the used model
+        late = Evaluator(model)
+        for a in wb['cells']:
+            r = evalwire.canon_result(late.evaluate, a)
+            want = oracle.value(inputs, a)
+            if r != want:
+                bad(f'an Evaluator created after the schedule gives a different value for {a} than a freshly '
+                    'compiled model', len(sched) - 1, want, r)
+                break
     return obs, viol
 
 
@@ -219,6 +253,182 @@ def shrink(wb, k, sched, what):
                 break
     _, viol = run_schedule(wb, oracle, k, cur)
     return viol[0] if viol and viol[0]['what'] == what else None
+
+
+# ------------------------------------------------------------------------------------------ typed constants
+# Workbooks written as Excel formula text (real code vs. freshly compiled real code only — the Lean function
+# semantics has no ISNUMBER / ISTEXT / COUNT): constants that are equal and equal-hash in Python but have
+# different Excel types (True/1/1.0, False/0/0.0/'') side by side, each watched by type-sensitive formulas.
+
+RAW_WITNESS = {'Sheet1!A1': True, 'Sheet1!A2': 1, 'Sheet1!A3': 0, 'Sheet1!A4': False,
+               'Sheet1!B1': '=ISNUMBER(A1)', 'Sheet1!B2': '=ISNUMBER(A2)', 'Sheet1!B3': '=A3&"|"',
+               'Sheet1!B4': '=A4&"|"'}
+RAW_WITNESS2 = {'Sheet1!A1': 1.0, 'Sheet1!A2': 1, 'Sheet1!A3': True, 'Sheet1!A4': 0.0, 'Sheet1!A5': 0,
+                'Sheet1!B1': '=A1&"|"', 'Sheet1!B2': '=A2&"|"', 'Sheet1!B3': '=A3=A2', 'Sheet1!B4': '=A4&"|"',
+                'Sheet1!B5': '=A5&"|"', 'Sheet1!C1': '=COUNT(A1:A5)', 'Sheet1!C2': '=ISTEXT(A3)'}
+OBSERVERS = ['=ISNUMBER({a})', '=ISTEXT({a})', '={a}&"|"', '={a}={b}', '=IF({a},"y","n")', '={a}+0', '=ISBLANK({a})',
+             '=NOT({a})', '=EXACT({a},{b})', '=COUNT({lo}:{hi})', '=SUM({lo}:{hi})', '=COUNTA({lo}:{hi})+0',
+             '=ISNUMBER({a})&ISTEXT({b})', '={a}<{b}', '=ISERROR({a}/{b})']
+
+
+def raw_is_formula(v):
+    return isinstance(v, str) and v.startswith('=')
+
+
+def gen_raw(rng):
+    n = rng.randint(3, 6)
+    pool = rng.choice([c04.TRUE_POOL, c04.FALSE_POOL])
+    consts = rng.sample(pool, 2) + [rng.choice(c04.TWIN_VALUES + ['1', 'TRUE', 2, 'a']) for _ in range(n - 2)]
+    rng.shuffle(consts)
+    d = {f'Sheet1!A{i + 1}': v for i, v in enumerate(consts)}
+    names = [f'A{i + 1}' for i in range(n)]
+    row = 0
+    for a in names:
+        for _ in range(rng.randint(1, 2)):
+            row += 1
+            t = rng.choice(OBSERVERS)
+            d[f'Sheet1!B{row}'] = t.format(a=a, b=rng.choice(names), lo='A1', hi=f'A{n}')
+    if rng.random() < 0.4:      # an observer of observers
+        row += 1
+        d[f'Sheet1!B{row}'] = f'=B1&"/"&B{rng.randint(1, row - 1)}'
+    return d
+
+
+def build_raw(d, inputs):
+    from xlcalculator import ModelCompiler
+    cells = dict(d)
+    cells.update(inputs)
+    later = {a: v for a, v in cells.items() if v == '' and isinstance(v, str)}
+    model = ModelCompiler().read_and_parse_dict({a: v for a, v in cells.items() if a not in later and v is not None})
+    for a, v in later.items():
+        model.set_cell_value(a, v)
+    return model
+
+
+class RawOracle:
+    """value of a cell for a new Evaluator on a freshly compiled workbook holding the given inputs"""
+
+    def __init__(self, d):
+        self.d, self.memo, self.compiles = d, {}, 0
+
+    def value(self, inputs, addr):
+        key = (tuple(sorted((a, c04.vkey(v)) for a, v in inputs.items())), addr)
+        if key not in self.memo:
+            from xlcalculator import Evaluator
+            self.compiles += 1
+            self.memo[key] = evalwire.canon_result(Evaluator(build_raw(self.d, inputs)).evaluate, addr)
+        return self.memo[key]
+
+
+def run_raw_schedule(d, oracle, k, sched):
+    from xlcalculator import Evaluator
+    model = build_raw(d, {})
+    evs = LazyEvaluators(model, k, eager_of(k, sched))
+    inputs, obs, viol = {}, [], []
+    snap = snapshot(model)
+
+    def bad(what, step, expected, got):
+        viol.append({'what': what, 'input': {'raw_workbook': dict(d), 'evaluators': k,
+                                             'schedule': [list(x) for x in sched[:step + 1]]},
+                     'expected': expected, 'got': got})
+
+    for i, op in enumerate(sched):
+        addr = op[2]
+        if op[0] == 's':
+            evs[op[1]].set_cell_value(addr, op[3])
+            inputs[addr] = op[3]
+            snap = snapshot(model)
+            obs.append('s')
+            continue
+        r = evalwire.canon_result(evs[op[1]].evaluate, addr)
+        want = oracle.value(inputs, addr)
+        if r != want:
+            bad('the value (or its Excel type) depends on what was evaluated before / on the evaluator used '
+                '(differs from a new evaluator on a freshly compiled model)', i, want, r)
+            break
+        now = snapshot(model)
+        if now != snap:
+            bad('evaluate changed constants, formula texts, defined names, ranges or the set of cells', i,
+                'unchanged', diff_snapshot(snap, now))
+            break
+        obs.append(f'e~{r}')
+    if not viol:
+        late = Evaluator(model)
+        for a in d:
+            r = evalwire.canon_result(late.evaluate, a)
+            want = oracle.value(inputs, a)
+            if r != want:
+                bad(f'an Evaluator created after the schedule gives a different value for {a} than a freshly '
+                    'compiled model', len(sched) - 1, want, r)
+                break
+    return obs, viol
+
+
+def raw_twins(d):
+    """pairs of constants equal in Python but of different type"""
+    cs = [(a, v) for a, v in d.items() if not raw_is_formula(v)]
+    out = set()
+    for a, v in cs:
+        for b, w in cs:
+            if a < b and type(v) is not type(w) and v == w:
+                out.add((a, b))
+    return out
+
+
+def raw_nontrivial(d, sched):
+    """one evaluator evaluates formulas that read both members of a twin pair"""
+    import re
+    reads = {}
+    for a, v in d.items():
+        if raw_is_formula(v):
+            rs = set()
+            for m in re.finditer(r'([A-Z])(\d+)(?::([A-Z])(\d+))?', v):
+                if m.group(3):
+                    for r in range(int(m.group(2)), int(m.group(4)) + 1):
+                        rs.add(f'Sheet1!{m.group(1)}{r}')
+                else:
+                    rs.add(f'Sheet1!{m.group(1)}{m.group(2)}')
+            reads[a] = rs
+    per = {}
+    for op in sched:
+        if op[0] == 'e':
+            per.setdefault(op[1], set()).update(reads.get(op[2], {op[2]}))
+    return any(a in seen and b in seen for seen in per.values() for a, b in raw_twins(d))
+
+
+def raw_schedule(rng, d, k, length, with_set):
+    handles = list(d)
+    seq = [rng.choice(handles) for _ in range(length)]
+    sched = [('e', rng.randrange(k), h) for h in seq]
+    if with_set:
+        consts = [a for a, v in d.items() if not raw_is_formula(v)]
+        sched.insert(rng.randint(1, len(sched)), ('s', rng.randrange(k), rng.choice(consts),
+                                                  rng.choice(c04.TWIN_VALUES)))
+    return sched
+
+
+def _raw_job(args):
+    d, ks = args
+    oracle = RawOracle(d)
+    return [run_raw_schedule(d, oracle, k, sched) for k, sched in ks], oracle.compiles
+
+
+def run_raw_batch(res, pool, batches, label):
+    outs = pool.map(_raw_job, batches, chunksize=1) if pool else [_raw_job(b) for b in batches]
+    for (d, ks), (results, compiles) in zip(batches, outs):
+        res.count('fresh compiles (Spec oracle)', compiles)
+        for (k, sched), (obs, viol) in zip(ks, results):
+            res.evaluations += 1
+            res.count(label)
+            res.count('evaluate calls', sum(1 for op in sched if op[0] == 'e'))
+            if viol:
+                if len(res.violations) < 40:
+                    res.violations.append(viol[0])
+            elif raw_nontrivial(d, sched):
+                res.nontrivial.add(json.dumps([sorted(d.items(), key=str), k, [list(x) for x in sched]], default=str))
+        if ks:
+            res.sample({'workbook (formula text)': d, 'evaluators': ks[0][0], 'schedule': [list(x) for x in ks[0][1]],
+                        'observed': results[0][0]}, limit=12)
 
 
 def precedents(wb):
@@ -439,8 +649,12 @@ def run(ctx):
                 'sampled), random permutations with repetitions on larger ones, a third of them with 1-2 '
                 'set_cell_value calls by some evaluator in between; after every call the value is compared with '
                 'a freshly compiled model (Spec) and a snapshot of constants / formula texts / defined names / '
-                'ranges / key sets with the one taken before; plus one long child-process run measuring live '
-                'contexts, gc objects and traced memory, and the namespace-copy probe. One evaluation = one '
+                'ranges / key sets with the one taken before; evaluators are created up front or on first use, and '
+                'an Evaluator created after the schedule re-evaluates every cell; values are compared as exact '
+                'wire text, i.e. by Excel type (B:/I:/F:/T:) as well as value; workbooks with equal-but-'
+                'differently-typed constants (True/1/1.0, False/0/0.0/"") watched by type-sensitive formulas '
+                '(&, =, IF; as formula text also ISNUMBER ISTEXT COUNT NOT EXACT ...); plus one long child-process '
+                'run measuring live contexts, gc objects and traced memory, and the namespace-copy probe. One evaluation = one '
                 'schedule; non-trivial = a schedule in which a formula cell is evaluated again after one of its '
                 'precedents or dependents was evaluated (distinct by workbook + evaluators + schedule)')
 
@@ -451,6 +665,9 @@ def run(ctx):
             wb = c04.wb_from_json(inp['workbook'])
             sched = [tuple(x) for x in inp['schedule']]
             run_batch(ctx, res, None, [(wb, [(int(inp.get('evaluators', 1)), sched)])], 'replay')
+        elif isinstance(inp, dict) and 'raw_workbook' in inp:
+            run_raw_batch(res, None, [(inp['raw_workbook'], [(int(inp.get('evaluators', 1)),
+                                                              [tuple(x) for x in inp['schedule']])])], 'replay')
         elif isinstance(inp, dict) and 'evaluations' in inp:
             n = int(inp['evaluations'])
             finish_memory_child(start_memory_child(n), res, n, 3600)
@@ -471,6 +688,10 @@ def run(ctx):
             for pth in sorted(cdir.glob('*.json')):
                 inp = json.loads(pth.read_text())
                 inp = inp.get('input', inp)
+                if 'raw_workbook' in inp:
+                    run_raw_batch(res, None, [(inp['raw_workbook'], [(int(inp.get('evaluators', 1)),
+                                                                      [tuple(x) for x in inp['schedule']])])], 'corpus')
+                    continue
                 run_batch(ctx, res, None, [(c04.wb_from_json(inp['workbook']),
                                             [(int(inp.get('evaluators', 1)), [tuple(x) for x in inp['schedule']])])],
                           'corpus')
@@ -510,6 +731,30 @@ def run(ctx):
                 ks.append((k, random_schedule(rng, wb, k, rng.choice([8, 16]), with_set=(i % 2 == 1))))
             batches.append((wb, ks))
         run_batch(ctx, res, pool, batches, 'random schedules')
+        # 2b. typed constants: equal-but-differently-typed constants next to type-sensitive formulas
+        batches = []
+        for d in (RAW_WITNESS, RAW_WITNESS2):
+            obsv = [a for a, v in d.items() if raw_is_formula(v)]
+            hs = list(d)
+            ks = []
+            for j in (1, 2, 3):
+                for seq in itertools.product(obsv if j == 3 else hs, repeat=j):
+                    k = 1 + (len(ks) % 2)
+                    ks.append((k, [('e', (i * len(ks)) % k, h) for i, h in enumerate(seq)]))
+            for seq in itertools.permutations(obsv[:5], min(4, len(obsv))):
+                ks.append((1, [('e', 0, h) for h in seq]))
+            step = max(1, len(ks) // 4)
+            for i in range(0, len(ks), step):
+                batches.append((d, ks[i:i + step]))
+        nraw = 2500 if thorough else 160
+        for _ in range(nraw):
+            d = gen_raw(rng)
+            ks = []
+            for i in range(8 if thorough else 5):
+                k = rng.randint(1, 3)
+                ks.append((k, raw_schedule(rng, d, k, rng.choice([3, 5, 8, 12]), with_set=(i % 3 == 2))))
+            batches.append((d, ks))
+        run_raw_batch(res, pool, batches, 'typed-constant schedules (formula text)')
         # 3. the model's own prediction for repeated passes: the retained size does not depend on n
         wb = c04.fixed_models()[6][1]
         m = evalwire.build_real(wb)
